@@ -471,15 +471,17 @@ class Frame(object):
             st.events.append(('ior', render(cur), render(rhs), node.lineno))
         else:
             v = self.binop(node.op, cur, rhs)
-        self.assign(node.target, v, st, node, aug=True)
+        self.assign(node.target, v, st, node, aug=True, event_val=rhs)
         return [(st, 'normal')]
 
-    def assign(self, target, v, st, node, aug=False):
+    def assign(self, target, v, st, node, aug=False, event_val=None):
+        rhs = getattr(node, 'value', None)
+        rhs_names = frozenset(n.id for n in ast.walk(rhs) if isinstance(n, ast.Name)) if isinstance(rhs, ast.AST) else frozenset()
         if isinstance(target, ast.Name):
             if isinstance(v, Obj) and v.name.startswith('<new'):
                 v = Obj(target.id, v.cls, v.text)
             st.env[target.id] = v
-            st.events.append(('assign', target.id, render(v), getattr(node, 'lineno', 0)))
+            st.events.append(('assign', target.id, render(event_val if event_val is not None else v), getattr(node, 'lineno', 0), rhs_names))
         elif isinstance(target, (ast.Tuple, ast.List)):
             if isinstance(v, ListV) and len(v.elems) == len(target.elts):
                 for t, e in zip(target.elts, v.elems):
@@ -496,7 +498,7 @@ class Frame(object):
             else:
                 st.env.pop(path, None)
             st.stores.append((path, render(v), node.lineno, v))
-            st.events.append(('store', path, render(v), node.lineno))
+            st.events.append(('store', path, render(v), node.lineno, rhs_names))
         elif isinstance(target, ast.Subscript):
             path = self.text(target, st)
             st.env[path] = v
